@@ -139,13 +139,42 @@ func runWorker(args []string) int {
 		af.WriteAt([]byte(line), 0)
 	}
 	// CPU watchdog: decides non-termination of code that never calls the navigator (Compile).
+	// It also detects a case that is BLOCKED (deadlock: a lock never released, a barrier never passed):
+	// the case has been running for more than 90 s and the whole process used less than 100 ms of CPU in
+	// the last 60 s. The deciding quantity is the absence of CPU consumption, not the elapsed time: a
+	// runnable case on a loaded machine still consumes CPU whenever it is scheduled.
 	go func() {
+		type sample struct {
+			t   time.Time
+			cpu int64
+		}
+		var ring []sample
+		var curStart int64
+		var startWall time.Time
 		for {
 			time.Sleep(200 * time.Millisecond)
 			st := atomic.LoadInt64(&caseStartCPU)
-			if st != 0 && cpuNanos()-st > int64(*cpuBudget)*int64(time.Second) {
+			if st == 0 {
+				ring, curStart = nil, 0
+				continue
+			}
+			now, cpu := time.Now(), cpuNanos()
+			if st != curStart {
+				curStart, startWall, ring = st, now, nil
+			}
+			if cpu-st > int64(*cpuBudget)*int64(time.Second) {
 				af.WriteAt([]byte("CPUHANG "), 121)
 				os.Exit(3)
+			}
+			ring = append(ring, sample{now, cpu})
+			for len(ring) > 0 && now.Sub(ring[0].t) > 60*time.Second {
+				if now.Sub(startWall) > 90*time.Second && cpu-ring[0].cpu < int64(100*time.Millisecond) {
+					af.WriteAt([]byte("BLOCKED "), 121)
+					buf := make([]byte, 1<<20)
+					os.Stderr.Write(buf[:runtime.Stack(buf, true)])
+					os.Exit(4)
+				}
+				ring = ring[1:]
 			}
 		}
 	}()
@@ -332,6 +361,7 @@ func runDriver(args []string) int {
 				ab, _ := os.ReadFile(annF)
 				last := strings.TrimSpace(string(ab))
 				cpuHang := strings.Contains(last, "CPUHANG")
+				blocked := strings.Contains(last, "BLOCKED")
 				if k := strings.IndexByte(last, ' '); k > 0 {
 					last = last[:k]
 				}
@@ -345,6 +375,9 @@ func runDriver(args []string) int {
 				kind := "CRASH"
 				if cpuHang {
 					kind = "NONTERM-CPU"
+				}
+				if blocked {
+					kind = "BLOCKED-NO-PROGRESS"
 				}
 				mu.Lock()
 				total.NViol++
